@@ -89,7 +89,7 @@ func config(tier string) *opspace.Config {
 	cfg := &opspace.Config{
 		Property: prop,
 		Drivers:  hx.Drivers,
-		Inits:    []string{"empty", "seeded11", "pruned"},
+		Inits:    []string{"empty", "seeded11", "pruned", "failed-kept"},
 		MakeInit: func(drv, init string) *hx.World {
 			w := hx.NewWorld(drv)
 			if init == "pruned" {
@@ -97,6 +97,12 @@ func config(tier string) *opspace.Config {
 				w.Exec(hx.Op{Kind: "install", Release: "r", Chart: chartA}, nil)
 				w.Exec(hx.Op{Kind: "upgrade", Release: "r", Chart: chartB, MaxHistory: 2}, nil)
 				w.Exec(hx.Op{Kind: "upgrade", Release: "r", Chart: chartA, MaxHistory: 2}, nil)
+			}
+			if init == "failed-kept" {
+				// (1:deployed 2:uninstalled): a failed upgrade whose revision was then uninstalled with --keep-history
+				w.Exec(hx.Op{Kind: "install", Release: "r", Chart: chartA}, nil)
+				w.Exec(hx.Op{Kind: "upgrade", Release: "r", Chart: chartB}, &sim.Fault{Label: "PATCH configmaps/a", Occurrence: 0, Kind: "reject"})
+				w.Exec(hx.Op{Kind: "uninstall", Release: "r", KeepHistory: true}, nil)
 			}
 			if init == "seeded11" {
 				// two-digit revisions: the Kubernetes backends list records in name order (v1, v10, v11, v2, ...)
@@ -142,7 +148,7 @@ func config(tier string) *opspace.Config {
 			return out
 		},
 		DepthFor: func(init string) int {
-			if init == "seeded11" || init == "pruned" {
+			if init == "seeded11" || init == "pruned" || init == "failed-kept" {
 				return 2
 			}
 			return 0
@@ -171,7 +177,7 @@ func config(tier string) *opspace.Config {
 		},
 	}
 	if thorough {
-		cfg.Inits = []string{"empty", "seeded11", "pruned", "seeded5"}
+		cfg.Inits = []string{"empty", "seeded11", "pruned", "failed-kept", "seeded5"}
 		cfg.MaxDepth = 3
 		cfg.MaxFaulty = 1
 	}
